@@ -6,7 +6,7 @@
     the bound contracts).  Amounts are unbounded integers: the theorems hold for every offered
     amount (in particular up to 2^128), every positive ratio with 18 decimals and every pair of
     scales 0..18. *)
-From Irismod Require Import Token.Model Token.ProofsBank Token.ProofsLossLess Token.Proofs Token.ProofsConv.
+From Irismod Require Import Token.Model Token.Check Token.ProofsBank Token.ProofsLossLess Token.Proofs Token.ProofsConv Token.Sound.
 
 (** ** the kernel *)
 
@@ -53,6 +53,17 @@ Theorem lossless_never_burns_negative_refuted_at_pinned_commit :
     0 <= input /\ 0 < ratio /\ scales_ok si so /\ fst (lossless_swap_v0 input ratio si so) < 0.
 Proof. exact lossless_v0_negative_burn. Qed.
 Print Assumptions lossless_never_burns_negative_refuted_at_pinned_commit.
+
+(** The decidable clauses the stream "lossless" evaluates on the IMPLEMENTATION's results
+    ([check_lossless] of Token/Check.v: agreement with the model, burn in range, mint within worth,
+    ratio-1 exactness) all pass on the model's own result, for every admissible input: that stream
+    alarms only if the Go function differs from [lossless_swap] or breaks a clause. *)
+Theorem lossless_checker_quiet_on_model :
+  forall input ratio si so,
+    0 <= input -> 0 < ratio -> scales_ok si so ->
+    check_lossless (input, ratio, si, so, lossless_swap input ratio si so) = (-1, -1, 0).
+Proof. exact check_lossless_quiet_on_model. Qed.
+Print Assumptions lossless_checker_quiet_on_model.
 
 (** ** conversion messages *)
 
